@@ -41,6 +41,7 @@ type c10Seq struct {
 }
 
 type c10Image struct {
+	sparsePatched int
 	fs    filesystem.FileSystem
 	files map[string][]byte
 	unit  int
@@ -133,11 +134,11 @@ func c10Build(kind string, seed int64) (*c10Image, error) {
 			return nil, err
 		}
 		img.fs = fs2
-	case "squashfs", "squashfs-nofrag", "squashfs-gzip":
+	case "squashfs", "squashfs-nofrag", "squashfs-gzip", "squashfs-sparse":
 		st := monstore.NewMem(32 << 20)
 		img.unit = 4096
 		t := mkTree(img.unit, upper)
-		o := SqOpts{Comp: "none", NoFragments: kind == "squashfs-nofrag"}
+		o := SqOpts{Comp: "none", NoFragments: kind == "squashfs-nofrag" || kind == "squashfs-sparse", Block: 4096}
 		if kind == "squashfs-gzip" {
 			o.Comp = "gzip"
 		}
@@ -145,6 +146,53 @@ func c10Build(kind string, seed int64) (*c10Image, error) {
 			return nil, err
 		}
 		reg(t)
+		if kind == "squashfs-sparse" {
+			// the library's writer never produces sparse blocks (block-list entry 0 = a block of zeros that
+			// occupies no space), other writers do: turn the second entry of every file with three or more stored
+			// full blocks into one. The data of the following entries is then read one block earlier, so the
+			// expected content is: block 0, zeros, block 1, block 2, ... (same size).
+			raw := st.Bytes()
+			le32 := func(o int) uint32 {
+				return uint32(raw[o]) | uint32(raw[o+1])<<8 | uint32(raw[o+2])<<16 | uint32(raw[o+3])<<24
+			}
+			inodeStart, dirStart := int(le32(64)), int(le32(72))
+			const stored = uint32(4096 | 1<<24)
+			patched := 0
+			for o := inodeStart + 2 + 48; o+12 <= dirStart && o+12 <= len(raw); o += 2 {
+				if le32(o) != stored || le32(o+4) != stored || le32(o+8) != stored || le32(o-4) == stored {
+					continue
+				}
+				// extended file inode: ... start u64, size u64, sparse u64, links, fragment index, fragment offset, xattr index, block list
+				if le32(o-28) != 0 {
+					continue
+				}
+				fsize := int(le32(o - 32))
+				full := fsize / 4096
+				run := 0
+				for run < full && o+4*run+4 <= len(raw) && le32(o+4*run) == stored {
+					run++
+				}
+				if full < 3 || run != full {
+					continue
+				}
+				for name, data := range img.files {
+					if len(data) != fsize {
+						continue
+					}
+					st.Poke([]byte{0, 0, 0, 0}, int64(o+4))
+					nd := make([]byte, len(data))
+					copy(nd, data[:4096])
+					copy(nd[2*4096:full*4096], data[4096:(full-1)*4096])
+					copy(nd[full*4096:], data[full*4096:]) // the tail lives in a fragment block and is not affected
+					img.files[name] = nd
+					patched++
+				}
+			}
+			if patched == 0 {
+				return nil, fmt.Errorf("squashfs-sparse: no block list of three stored blocks found to patch")
+			}
+			img.sparsePatched = patched
+		}
 		fs2, err := squashfs.Read(file.New(st, true), 32<<20, 0, 4096)
 		if err != nil {
 			return nil, err
@@ -432,13 +480,13 @@ func firstDiffBytes(a, b []byte) int {
 	return len(a)
 }
 
-var c10Kinds = []string{"fat12", "fat16", "fat32", "ext4", "iso", "iso-rr", "iso-joliet", "squashfs", "squashfs-nofrag", "squashfs-gzip"}
+var c10Kinds = []string{"fat12", "fat16", "fat32", "ext4", "iso", "iso-rr", "iso-joliet", "squashfs", "squashfs-nofrag", "squashfs-gzip", "squashfs-sparse"}
 
 func init() {
 	core.Register(&core.Check{
 		ID:    "C10",
 		Level: "exploration",
-		Rule: "for each of {fat12, fat16, fat32, ext4, iso9660 plain/RockRidge/Joliet, squashfs with fragments / without fragments / gzip} an image built by the library holds 11 files of known content with sizes 0, 1, unit-1, unit, unit+1, 2*unit, ... 16*unit+3 (unit = cluster/block/fragment size); seeded call sequences of Read (sizes 0,1,7,unit-1,unit,unit+1,3*unit+5,1 MiB) and Seek (all three whences; positive, zero, negative offsets; also past EOF) followed by Close/Read/Seek/Read are applied to handles from OpenFile(O_RDONLY), Open and (FAT/ext4) OpenFile(O_RDWR); every result is compared with a shadow cursor over the known bytes (bytes.Reader semantics, relaxed where io.Reader allows); non-trivial = a sequence that ran to its end; distinct = distinct (fs, route, sequence)",
+		Rule: "for each of {fat12, fat16, fat32, ext4, iso9660 plain/RockRidge/Joliet, squashfs with fragments / without fragments / gzip / an uncompressed image whose block lists were given a sparse entry (zero block occupying no space, as other writers produce) in front of stored blocks} an image built by the library holds 11 files of known content with sizes 0, 1, unit-1, unit, unit+1, 2*unit, ... 16*unit+3 (unit = cluster/block/fragment size); seeded call sequences of Read (sizes 0,1,7,unit-1,unit,unit+1,3*unit+5,1 MiB) and Seek (all three whences; positive, zero, negative offsets; also past EOF) followed by Close/Read/Seek/Read are applied to handles from OpenFile(O_RDONLY), Open and (FAT/ext4) OpenFile(O_RDWR); every result is compared with a shadow cursor over the known bytes (bytes.Reader semantics, relaxed where io.Reader allows); non-trivial = a sequence that ran to its end; distinct = distinct (fs, route, sequence)",
 		Assumptions: []string{"short reads are allowed as long as they make progress; (n>0, io.EOF) and (n, nil) then (0, io.EOF) are both accepted", "zero-length reads must only return no data", "a negative seek target must be refused and leave the cursor unchanged (verified by the following reads)"},
 		MinSigs:   map[string]int{"quick": 1000, "thorough": 30000},
 		NeedMarks: []string{"O_RDWR handle read after writes", "seek past EOF accepted", "seek to negative target refused", "seek SeekEnd negative", "seek SeekCurrent negative", "read mid-unit-in-last-unit"},
